@@ -23,12 +23,20 @@ def atomics(body, field, names):
     return [cs for cs in body.calls() if cs.f and "atomic::Atomic" in cs.f["path"] and cs.name in names and T.path_has(body, cs.args[0], "." + field) and not body.is_cleanup(cs.bb)]
 
 
+def always_notifies(cb, depth=0):
+    """a local function every path of which reaches Notifier::notify / Poller::notify (LoopSignal::wakeup)"""
+    if cb is None or depth > 2:
+        return False
+    n_ = [cs for cs in cb.calls() if not cb.is_cleanup(cs.bb) and (cs.name == "notify" or always_notifies(cs.callee_body(), depth + 1))]
+    return bool(n_) and T.t2_all_exits(cb, [0], [n.bb for n in n_]) is None
+
+
 def run(ck):
     f = ck.facts
     rn = ck.body("1", "EventLoop::run")
     loads = atomics(rn, "stop", ("load", "swap", "compare_exchange", "fetch_and"))
     disp = [cs for cs in rn.calls() if cs.name in ("dispatch", "dispatch_events") and cs.callee_body() is not None and not rn.is_cleanup(cs.bb)]
-    oks = [i for i, j, st in rn.statements() if st["s"] == "assign" and st["pl"]["l"] == 0 and st["rv"]["r"] == "agg" and st["rv"].get("variant") == "Ok" and not rn.is_cleanup(i)]
+    oks = [i for i, j, st in rn.statements() if st["s"] == "assign" and st["pl"]["l"] in T.ret_locals(rn) and st["rv"]["r"] == "agg" and st["rv"].get("variant") == "Ok" and not rn.is_cleanup(i)]
     ck.floor("1", "run(): stop load + dispatch call + Ok return", len(loads[:1]) + len(disp[:1]) + len(oks[:1]), 3)
     if loads and disp and oks:
         stop_edges = []
@@ -74,8 +82,13 @@ def run(ck):
         if b is None:
             ck.anchor_missing("3", "T3-must-precede", q)
             continue
+        # one of the two entry points may simply delegate to the other (checked itself)
+        sib = [cs for cs in b.calls() if not b.is_cleanup(cs.bb) and cs.callee_body() is not None and cs.callee_body().qual in ("<EventLoopWaker as Wake>::wake", "<EventLoopWaker as Wake>::wake_by_ref") and cs.callee_body().qual != q]
+        if sib and T.t2_all_exits(b, [0], [c.bb for c in sib]) is None and not atomics(b, "future_ready", ("store", "swap", "fetch_or", "fetch_and")):
+            ck.ok("3", "T3-must-precede", b, "ready-flag-stored-before-notify", "delegates, on every path, to %s, which is checked itself" % sib[0].callee_body().qual, site=b.where(sib[0].bb))
+            continue
         s_ = atomics(b, "future_ready", ("store", "swap", "fetch_or"))
-        n_ = [cs for cs in b.calls() if cs.name == "notify" and not b.is_cleanup(cs.bb)]
+        n_ = [cs for cs in b.calls() if not b.is_cleanup(cs.bb) and (cs.name == "notify" or always_notifies(cs.callee_body()))]
         ok = bool(s_) and bool(n_) and all(b.dominates(s_[0].bb, n.bb) for n in n_) and all(c.args[1].get("k", {}).get("v") == 1 for c in s_) and T.t2_all_exits(b, [0], [n.bb for n in n_]) is None
         ck.verdict(ok, "3", "T3-must-precede", b, "ready-flag-stored-before-notify", "the waker stores future_ready = true and then notifies, on every path", "%s does not store the ready flag before notifying (or does not notify): the loop can wake up, find the flag clear, and go back to sleep without polling the future" % q, site=b.where())
     bo = ck.body("3", "EventLoop::block_on")
@@ -108,7 +121,7 @@ def run(ck):
         # Ready => Some(output) and leave the loop
         some_stores = [i for i, j, st in bo.statements() if st["s"] == "assign" and st["rv"]["r"] == "agg" and st["rv"].get("variant") == "Some" and not bo.is_cleanup(i) and T.tainted_by_call(bo, st["rv"]["fields"][0], [p0.bb])]
         ck.verdict(bool(some_stores) and all(w0.bb not in bo.reachable([i], removed_blocks=set()) or bo.find_path([i], [w0.bb], removed_blocks={h}) is None for i in some_stores), "3", "T5-loop-exit", bo, "Ready=>Some(output)-and-leave", "a ready future's output is stored as Some and the loop is left without waiting again", "after the future completed block_on waits again / does not keep the output", site=bo.where(p0.bb))
-        rets = [st for i, j, st in bo.statements() if st["s"] == "assign" and st["pl"]["l"] == 0 and st["rv"]["r"] == "agg" and st["rv"].get("variant") == "Ok" and not bo.is_cleanup(i)]
+        rets = [st for i, j, st in bo.statements() if st["s"] == "assign" and st["pl"]["l"] in T.ret_locals(bo) and st["rv"]["r"] == "agg" and st["rv"].get("variant") == "Ok" and not bo.is_cleanup(i)]
         ok = False
         out_locals = set()
         for i in some_stores:
